@@ -85,11 +85,14 @@ CHECKS = {
         design="4/C12",
     ),
     "C18": dict(
-        specs=["PEImageR.tla", "VersionR.tla", "Version.tla", "PEImageIO.tla"],
+        specs=["PEImageR.tla", "PEScan.tla", "VersionR.tla", "Version.tla", "PEImageIO.tla"],
         text="PEImageR is a byte-exact TLA+ layout of a stage around a PE image (DOS header, e_lfanew, file/optional header, "
         "section table, export directory); TLC renders every scenario (arch x e_lfanew x prepend length up to 1023 x export "
-        "placement x append kind x magic variant) to bytes with the artifacts a reader must report, and the harness runs "
-        "pe.find_* and BeaconConfig.from_bytes on them. The live version tables are exported from the running library and "
+        "placement x append kind x magic variant, plus compact images behind offset-table prepends) to bytes with the artifacts a reader must report, and the harness runs "
+        "pe.find_* and BeaconConfig.from_bytes on them. PEScan.tla is the header scan as a state machine over the outcome of probing "
+        "each offset (end of data in the DOS header or behind e_lfanew, bad e_lfanew, other Machine, x86, x64): TLC checks that "
+        "the first PE header is returned whatever precedes it (a scan that stops at the first end-of-data is rejected) and every "
+        "outcome vector is concretised into a file and run through the PE helpers. The live version tables are exported from the running library and "
         "walked entry by entry by Version.tla (parse, ascending keys, monotone versions and dates); BeaconVersion parsing and "
         "the export-stamp-over-max-index precedence are judged by TLC on recorded calls.",
         note="Trusted: TLC, PEImageR (written from the PE/COFF layout), VersionR.Parse. Stamps in rendered images are < 2^31. "
